@@ -16,7 +16,7 @@ RULE = (
     "{letter, lower-case letter, word, lower-case word, letter+trailing text}, body shape per section in {1 item, "
     "empty, 2 items, trailing blank, trailing comment}, ~O bodies incl. inner blank and item-looking lines, one "
     "steering decoy (VERS/WRAP/NULL/DLM with a value that would change parsing) in ~C, ~P or the custom section, "
-    "2..3 data rows with one genuine-NULL and one decoy-NULL cell, both engines, ignore_data on/off, blank/comment lines at the end or start of ~A, one undeclared surplus data column, a text column of ISO dates, ~W with or without a NULL item, decoys also in ~W (DLM, WRAP, VERS) and ~V (NULL); custom titles incl. ~MUD_DATA / ~mud_data / ~Run_parameter / ~TOOL_DEFINITION; enumeration = k-deviation ball "
+    "LAS version 2.0 or 1.2 (the 1.2 ~W layout), 2..3 data rows with one genuine-NULL and one decoy-NULL cell, both engines, ignore_data on/off, blank/comment lines at the end or start of ~A, one undeclared surplus data column, a text column of ISO dates, ~W with or without a NULL item, decoys also in ~W (DLM, WRAP, VERS) and ~V (NULL); custom titles incl. ~MUD_DATA / ~mud_data / ~Run_parameter / ~TOOL_DEFINITION; enumeration = k-deviation ball "
     "around the canonical file with the order axis taking all 720 values; non-trivial = order differs from "
     "V,W,C,P,O,X,A or a title is not the upper-case letter form or a decoy is present"
 )
@@ -61,6 +61,7 @@ def axes():
     ax.append(("surplus", [False, True]))     # one data column more than ~C declares
     ax.append(("wnull", [True, False]))       # ~W carries a NULL item or not
     ax.append(("dates", [False, True]))       # a text column of ISO dates (a hyphen in every data row)
+    ax.append(("vers", ["2.0", "1.2"]))       # LAS 1.2: ~W lines other than STRT/STOP/STEP/NULL are laid out 'MNEM.UNIT DESCR : VALUE'
     return ax
 
 
@@ -108,10 +109,10 @@ def points(tier):
     return pts
 
 
-def _items_for(sec, body, decoy, wnull=True):
+def _items_for(sec, body, decoy, wnull=True, vers="2.0"):
     """Abstract items (mnemonic, unit, value-text, descr) and trailing noise lines."""
     base = {
-        "V": [("VERS", "", "2.0", "version"), ("WRAP", "", "NO", "wrap")],
+        "V": [("VERS", "", vers, "version"), ("WRAP", "", "NO", "wrap")],
         "W": [("NULL", "", "-999.25", "null value")] if wnull else [("KB", "M", "12.5", "kelly bushing")],
         "C": [("DEPT", "M", "", "depth"), ("C1", "U1", "11", "curve one")],
         "P": [],
@@ -124,7 +125,7 @@ def _items_for(sec, body, decoy, wnull=True):
     for k in range(min(n_extra, len(extra_names))):
         items.append((extra_names[k], "", "val %s" % extra_names[k].lower(), "descr of %s" % extra_names[k]))
     if decoy and decoy[0] == sec:
-        items.append((decoy[1], "", DECOY_VALUE[decoy[1]], "decoy"))
+        items.append((decoy[1], "", DECOY_VALUE[decoy[1]] if decoy[1] != "VERS" else {"2.0": "1.2", "1.2": "2.0"}[vers], "decoy"))
     noise = {"trailing_blank": [""], "trailing_comment": ["# a comment"]}.get(kind, [])
     return items, noise
 
@@ -135,9 +136,16 @@ def build(pt):
     secs = []
 
     def header_sec(s):
-        items, noise = _items_for(s, pt["b" + s], decoy, pt.get("wnull", True))
+        vers = pt.get("vers", "2.0")
+        items, noise = _items_for(s, pt["b" + s], decoy, pt.get("wnull", True), vers)
         abstract[s] = items
-        return [TITLES[s][pt["t" + s]]] + [lasgen.item_line(*it) for it in items] + noise
+        lines = []
+        for (m, u, v, d) in items:
+            if s == "W" and vers == "1.2" and m not in ("STRT", "STOP", "STEP", "NULL"):
+                lines.append(lasgen.item_line(m, u, d, v))   # LAS 1.2 ~W layout: description first, value after the colon
+            else:
+                lines.append(lasgen.item_line(m, u, v, d))
+        return [TITLES[s][pt["t" + s]]] + lines + noise
 
     secs.append(header_sec("V"))
     ncurves = 2 + (1 if decoy and decoy[0] == "C" else 0)
@@ -241,6 +249,8 @@ def classify(pt, clause):
             feats.append("%s=%s" % (k, pt[k]))
     if pt.get("wnull") is False:
         feats.append("no-well-null")
+    if pt.get("vers", "2.0") != "2.0":
+        feats.append("vers=" + pt["vers"])
     return "+".join(feats) or "plain"
 
 
